@@ -5,6 +5,7 @@ import (
 	"go/ast"
 	"go/token"
 	"go/types"
+	"strings"
 )
 
 // gostmt.go: symbolic execution of statements; loops are cut at their invariants.
@@ -538,6 +539,13 @@ func (x *fnv) collectWrites(n ast.Node, w *writeSet) {
 			}
 		case *ast.UnaryExpr:
 			if nd.Op == token.AND {
+				if cl, ok := ast.Unparen(nd.X).(*ast.CompositeLit); ok {
+					// &T{...}: initialises the cells of a fresh object
+					if w.allocs == nil {
+						w.allocs = newWriteSet()
+					}
+					x.noteCellWrite(x.typeOf(cl), w.allocs)
+				}
 				// &x handed out: x may be written through the pointer
 				if id, ok := ast.Unparen(nd.X).(*ast.Ident); ok {
 					if o := x.info.ObjectOf(id); o != nil && x.boxedVar[o] {
@@ -759,6 +767,11 @@ func (x *fnv) noteCallWrites(call *ast.CallExpr, w *writeSet) {
 			w.regions[r] = true
 		}
 	}
+	if strings.HasPrefix(fo.FullName(), "sync/atomic.") && len(call.Args) > 0 {
+		if u, ok := ast.Unparen(call.Args[0]).(*ast.UnaryExpr); ok && u.Op == token.AND {
+			x.noteWriteTarget(u.X, w)
+		}
+	}
 	if fc == nil || fc.Pure {
 		return
 	}
@@ -819,6 +832,22 @@ func (x *fnv) havocLoop(s *State, w *writeSet, lp *loopCtx, tag string) []string
 	} else {
 		for _, p := range w.sortedRegions() {
 			regions = append(regions, x.regionsWithPrefix(s, p)...)
+		}
+	}
+	if lp.refined && w.allocs != nil {
+		// a refined loop that allocates: the cells of the objects allocated by earlier iterations are arbitrary at the
+		// loop head in any case (only the invariants speak about them); havocking their regions as well gives them the
+		// loop-head allocation frontier (references stored in them exist at the loop head)
+		hasFresh := false
+		for _, tg := range lp.targets {
+			if tg.fresh {
+				hasFresh = true
+			}
+		}
+		if hasFresh {
+			for _, p := range w.allocs.sortedRegions() {
+				regions = append(regions, x.regionsWithPrefix(s, p)...)
+			}
 		}
 	}
 	sortStrings(regions)
